@@ -518,3 +518,33 @@ Fixpoint rrun (s : rstate) (ops : list rop) : res rstate :=
 (* operator*: TETL_PRECONDITION(has_value()); *_ptr *)
 Definition ref_deref (cs : list Z) (p : option nat) : res Z :=
   match p with Some c => (match nth_error cs c with Some v => Ok v | None => UB OutOfBounds end) | None => Contract end.
+
+(** * unexpected.hpp : a wrapper around one E; swap is etl::swap on the two errors *)
+Definition ustate := (Z * Z * Z)%type.
+
+(* using etl::swap; swap(error(), other.error()): T temp(move(a)); a = move(b); b = move(temp) *)
+Definition swap_vals (E : ty) (a b : Z) : Z * Z :=
+  let temp := a in
+  let a1 := moved_val E a in
+  let a2 := b in
+  let b1 := moved_val E b in
+  let b2 := temp in
+  let temp' := moved_val E temp in
+  (a2, b2).
+
+Definition ustep (E : ty) (s : ustate) (o : uop) : ustate :=
+  let '(ab, c) := s in
+  match o with
+  | UValue t v => let '(_, y) := (if t then (snd ab, fst ab) else ab) in ((if t then (y, v) else (v, y)), c)
+  | UCopy t => let '(_, y) := (if t then (snd ab, fst ab) else ab) in ((if t then (y, y) else (y, y)), c)
+  | UMove t =>
+    let '(_, y) := (if t then (snd ab, fst ab) else ab) in
+    ((if t then (moved_val E y, y) else (y, moved_val E y)), c)
+  | USwap => (swap_vals E (fst ab) (snd ab), c)
+  | USetC v => (ab, v)
+  end.
+
+Definition urun (E : ty) (s : ustate) (ops : list uop) : ustate := fold_left (ustep E) ops s.
+
+(* operator==(unexpected const&, unexpected<E2> const&): lhs.error() == rhs.error() *)
+Definition unex_eq (a b : Z) : bool := rel_z 0 a b.
